@@ -28,7 +28,25 @@ KEYWORDS = {
     "if", "while", "for", "match", "loop", "return", "fn", "let", "move", "in", "as", "else", "Some", "None", "Ok", "Err",
     "Box", "Vec", "vec", "format", "write", "println", "eprintln", "panic", "assert", "assert_eq", "matches", "unreachable",
 }
-LOCK_METHODS = {"read": "read", "write": "write", "lock": "lock", "try_read": "read", "try_write": "write", "borrow_mut": "borrowMut"}
+LOCK_METHODS = {"read": "read", "write": "write", "lock": "lock", "try_lock": "lock", "try_read": "read", "try_write": "write", "borrow_mut": "borrowMut"}
+# types with interior mutability / synchronisation: a value of such a type that more than one evaluation can reach is
+# shared mutable state
+SYNC_TYPES = r"RwLock|Mutex|RefCell|Cell|Atomic\w+|UnsafeCell|OnceCell|OnceLock|LazyLock|LazyCell|Lazy|Once|Condvar|Barrier"
+SYNC_KIND = {"RwLock": "rwlock", "Mutex": "mutex", "RefCell": "refCell", "Cell": "cell", "UnsafeCell": "unsafeCell", "OnceCell": "onceCell",
+             "OnceLock": "onceCell", "LazyLock": "onceCell", "LazyCell": "onceCell", "Lazy": "onceCell", "Once": "onceCell", "Condvar": "mutex", "Barrier": "mutex"}
+# `type X = … Mutex<…> …;` aliases found in the scanned crates (filled by a first pass): alias -> kind
+ALIASES = {}
+
+
+def sync_kind(type_text):
+    """The kind of the outermost interior-mutability type named in a type (or initialiser) text, None if there is none."""
+    m = re.search(r"\b(%s)\b" % SYNC_TYPES, type_text)
+    if m:
+        return SYNC_KIND.get(m.group(1), "atomic")
+    for alias, kind in ALIASES.items():
+        if re.search(r"\b%s\b" % re.escape(alias), type_text):
+            return kind
+    return None
 
 
 def strip_code(src):
@@ -138,6 +156,7 @@ class Fn:
         self.start, self.end, self.is_closure, self.crate = start, end, is_closure, crate
         self.ops, self.calls, self.ffi, self.scope_sites = [], set(), [], []
         self.nparams, self.has_self = None, False
+        self.atomic_ops = []
         self.id = None
 
     @property
@@ -261,7 +280,7 @@ def scan_file(path, rel, crate, fns, locations, externs, notes):
         return best
 
     # lock operations
-    for m in re.finditer(r"\.\s*(read|write|lock|try_read|try_write|borrow_mut)\s*\(\s*\)", code):
+    for m in re.finditer(r"\.\s*(read|write|lock|try_lock|try_read|try_write|borrow_mut)\s*\(\s*\)", code):
         if skipped(m.start()):
             continue
         f = owner_of(m.start())
@@ -275,6 +294,38 @@ def scan_file(path, rel, crate, fns, locations, externs, notes):
         r = re.search(r"([\w.]+)$", code[max(0, k - 80):k])
         recv = r.group(1).split(".")[-1] if r else "?"
         f.ops.append((LOCK_METHODS[m.group(1)], recv, line_of(code, m.start())))
+    # mutations of atomics / cells / once-cells (they take arguments): `.store(…)`, `.fetch_add(…)`, `.swap(…)`,
+    # `.compare_exchange(…)`, `.get_or_init(…)`, `.replace(…)` on a receiver that is a known interior-mutability field or
+    # captured variable is resolved in main (by receiver name); here every such call is recorded
+    for m in re.finditer(r"\.\s*(store|fetch_\w+|swap|compare_exchange\w*|compare_and_swap|get_or_init|get_or_try_init|call_once)\s*\(", code):
+        if skipped(m.start()):
+            continue
+        f = owner_of(m.start())
+        if f is None:
+            continue
+        k = m.start()
+        while k > 0 and code[k - 1].isspace():
+            k -= 1
+        r = re.search(r"([\w.]+)$", code[max(0, k - 80):k])
+        recv = r.group(1).split(".")[-1] if r else "?"
+        f.atomic_ops.append((m.group(1), recv, line_of(code, m.start())))
+    # interior-mutability values made in a function that builds a stored closure and used inside that closure: they are
+    # captured by the closure, so every evaluation (on every thread) reaches the same value
+    for f in local:
+        inner = [c for c in closures if f.start <= c.start and c.end <= f.end]
+        if not inner:
+            continue
+        for m in re.finditer(r"\blet\s+(?:mut\s+)?(\w+)\s*(?::\s*([^=;]+?))?\s*=\s*([^;]*);", code[f.start:f.end]):
+            pos = f.start + m.start()
+            if any(c.start <= pos < c.end for c in inner):
+                continue
+            var, ty, init = m.group(1), m.group(2) or "", m.group(3)
+            kind = sync_kind(ty) or (sync_kind(init) if re.search(r"::\s*(new|default|from|with_capacity)\s*\(", init) else None)
+            if kind is None:
+                continue
+            users = [c for c in inner if c.start > pos and re.search(r"\b%s\b" % re.escape(var), code[c.start:c.end])]
+            if users:
+                locations.append((kind if kind != "refCell" else "cell", "%s::%s (captured by %s)" % (f.qname, var, users[0].name), re.sub(r"\s+", " ", (ty or init))[:80], rel, line_of(code, pos)))
     def arity(open_paren):
         args, amb = split_args(code, open_paren)
         return None if amb else len(args)
@@ -325,7 +376,8 @@ def scan_file(path, rel, crate, fns, locations, externs, notes):
         b = m.end() - 1
         e = match_brace(code, b)
         for d in re.finditer(r"(?:pub(?:\([^)]*\))?\s+)?static\s+ref\s+(\w+)\s*:\s*([^=]+?)\s*=", code[b:e]):
-            locations.append(("lazyStatic", d.group(1), d.group(2).strip(), rel, line_of(code, b + d.start())))
+            # a lazily initialised global of a type with interior mutability is not a constant
+            locations.append((sync_kind(d.group(2)) or "lazyStatic", d.group(1), d.group(2).strip(), rel, line_of(code, b + d.start())))
     for m in re.finditer(r"\bthread_local!\s*\{", code):
         if not skipped(m.start()):
             locations.append(("threadLocal", "thread_local", "", rel, line_of(code, m.start())))
@@ -333,7 +385,11 @@ def scan_file(path, rel, crate, fns, locations, externs, notes):
         if skipped(m.start()) or m.group(2) == "ref":
             continue
         # not inside lazy_static (those are `static ref`)
-        locations.append(("staticMut" if m.group(1) else "static", m.group(2), m.group(3).strip(), rel, line_of(code, m.start())))
+        kind = "staticMut" if m.group(1) else (sync_kind(m.group(3)) or "static")
+        # a static RwLock is not one of the registries of the evaluator: it is listed as a mutex (exclusive state)
+        if kind == "rwlock":
+            kind = "mutex"
+        locations.append((kind, m.group(2), m.group(3).strip(), rel, line_of(code, m.start())))
     for m in re.finditer(r"\bunsafe\s+impl\b[^{;]*\b(Send|Sync)\b[^{;]*", code):
         if not skipped(m.start()):
             locations.append(("unsafeImpl", m.group(1), re.sub(r"\s+", " ", m.group(0)), rel, line_of(code, m.start())))
@@ -342,8 +398,10 @@ def scan_file(path, rel, crate, fns, locations, externs, notes):
             continue
         b = m.end() - 1
         e = match_brace(code, b)
-        for d in re.finditer(r"(\w+)\s*:\s*([^\n]*\b(RwLock|Mutex|RefCell|Cell|Atomic\w+|UnsafeCell|OnceCell)\b[^\n]*)", code[b:e]):
-            kind = {"RwLock": "rwlock", "Mutex": "mutex", "RefCell": "refCell", "Cell": "cell", "UnsafeCell": "unsafeCell", "OnceCell": "onceCell"}.get(d.group(3), "atomic")
+        for d in re.finditer(r"(\w+)\s*:\s*([^\n]*)", code[b:e]):
+            kind = sync_kind(d.group(2))
+            if kind is None:
+                continue
             locations.append((kind, m.group(1) + "." + d.group(1), d.group(2).strip().rstrip(","), rel, line_of(code, b + d.start())))
     # FFI calls with their context argument, and Scope construction sites
     for f in owners:
@@ -414,6 +472,21 @@ def main():
     fns, locations, externs, notes, ctx_uses = [], [], {}, [], []
     evaluator_bounds = []
     n_files = 0
+    # first pass: type aliases of interior-mutability types (`type Cache = Mutex<…>;`), to a fixed point
+    alias_src = []
+    for crate in CRATES:
+        root = os.path.join(a.repo, crate, "src")
+        for d, _, files in os.walk(root):
+            for f in sorted(files):
+                if f.endswith(".rs"):
+                    alias_src.append(strip_code(open(os.path.join(d, f), encoding="utf-8").read()))
+    ALIASES.clear()
+    for _ in range(4):
+        for code in alias_src:
+            for m in re.finditer(r"\btype\s+(\w+)\s*(?:<[^=;]*>)?\s*=\s*([^;]*);", code):
+                k = sync_kind(m.group(2))
+                if k is not None and m.group(1) not in ALIASES:
+                    ALIASES[m.group(1)] = k
     for crate in CRATES:
         root = os.path.join(a.repo, crate, "src")
         if not os.path.isdir(root):
@@ -512,6 +585,11 @@ def main():
     mask = sum(1 << i for i in eval_reach)
     bmask = sum(1 << i for i in build_reach)
     ops = [(f.id, k, recv, ln) for f in fns for (k, recv, ln) in f.ops]
+    # mutations of atomics / once-cells: only on receivers that are known locations (a field or a captured variable)
+    known_recv = set()
+    for (kind, name, ty, file, line) in locations:
+        known_recv.add(name.split(" ")[0].split("::")[-1].split(".")[-1])
+    ops += [(f.id, "atomic", recv, ln) for f in fns for (_, recv, ln) in f.atomic_ops if recv in known_recv]
     ffi = [(f.id, callee, kind, arg, ln) for f in fns for (callee, kind, arg, ln) in f.ffi]
     scope_sites = [(f.id, ln) for f in fns for ln in f.scope_sites]
     # which locations are shared between threads
@@ -543,8 +621,8 @@ def main():
     locations = sorted(locations, key=lambda x: (x[3], x[4]))
     field_index = {}
     for i, (kind, name, ty, file, line) in enumerate(locations):
-        if "." in name:
-            field_index.setdefault(name.split(".")[-1], []).append(i)
+        if "." in name or "::" in name:
+            field_index.setdefault(name.split(" ")[0].split("::")[-1].split(".")[-1], []).append(i)
     w("def locations : List Loc := [")
     for i, (kind, name, ty, file, line) in enumerate(locations):
         sh = "true" if kind in shared_kinds else "false"
@@ -625,7 +703,7 @@ def main():
         "edges": len(edges), "eval_reachable": len(eval_reach), "build_reachable": len(build_reach),
         "lock_ops": len(ops), "write_ops_eval_reachable": len([o for o in ops if o[1] in ("write", "lock") and o[0] in eval_reach]),
         "ffi_calls": len(ffi), "ffi_shared_ctx": len([x for x in ffi if x[2] == "shared"]),
-        "locations": len(locations), "changed": changed, "notes": notes[:10],
+        "locations": len(locations), "captured_by_closures": len([l for l in locations if "(captured by" in l[1]]), "aliases": sorted(ALIASES), "changed": changed, "notes": notes[:10],
     }
     print(json.dumps(summary))
     return 0
